@@ -115,7 +115,7 @@ impl ReadXml for PartialReply {
                         .transpose()?;
                     _ = reader.read_to_end(end.name());
                 }
-                (_, Event::Comment(_)) => continue,
+                (_, Event::Comment(_) | Event::Decl(_)) => continue,
                 (_, Event::Eof) => break,
                 (_, Event::Text(txt)) if &*txt == MARKER => break,
                 (ns, event) => {
